@@ -34,6 +34,12 @@ struct RecState {
   void Log(const std::string &line) { if (log) { std::fputs(line.c_str(), log); std::fputc('\n', log); std::fflush(log); } }
 };
 
+/// Fault injection for C09 (driver outcome table): env RECSOLVER_FAULT = <site>:<kind>[:<code>]
+/// sites: ctor init options convert extras solve report suffixes
+/// kinds: plain withCode infeas solCheck unsupported optionError readError fmtError systemError stdExn foreign
+/// Does nothing unless the variable is set and names this site.
+void rec_fault(const char *site);
+
 struct RecCommonInfo {
   RecState *st() const { return st_; }
   void set_st(RecState *s) { st_ = s; }
